@@ -14,7 +14,11 @@
 EXTENDS CfbTree, Json, IOUtils, TLCExt
 
 Rec    == ndJsonDeserialize(IOEnv.TRACE)
-DictIn == JsonDeserialize(IOEnv.DICT)
+\* TLC evaluates a definition that the configuration substitutes for a constant again at EVERY use, but caches
+\* an ordinary constant definition; the file is therefore read by DictFile (once) and DictIn only refers to it
+\* (the Json module also leaks one file descriptor per read)
+DictFile == JsonDeserialize(IOEnv.DICT)
+DictIn == DictFile
 
 VARIABLES s, l, skip
 vars == <<s, l, skip>>
